@@ -389,9 +389,14 @@ pub fn campaign(seed: u64, count: u64, max_ops: u64, cfg: &PhysCfg, ops_path: &s
 /// C03 at scale: a V3 file with more than 236 FAT sectors (two DIFAT sectors), written as three
 /// streams with removals in between; the ops go to `ops_path`, the final image to `<dir>/huge_v3.cfb`.
 pub fn huge(dir: &str, ops_path: &str, impl_path: &str) -> Vec<String> {
+    huge_v(dir, ops_path, impl_path, false)
+}
+
+/// the same history in either format version (`v4`: 18 MB are only 4 500 sectors there — 5 FAT sectors)
+pub fn huge_v(dir: &str, ops_path: &str, impl_path: &str, v4: bool) -> Vec<String> {
     let mb = 1usize << 20;
     let lines: Vec<String> = vec![
-        "create 3".into(),
+        if v4 { "create 4".into() } else { "create 3".into() },
         format!("putpat {} {} 1", enc("/a"), 5 * mb + 300),
         format!("putpat {} {} 2", enc("/small"), 1000),
         format!("putpat {} {} 3", enc("/b"), 6 * mb + 17),
@@ -426,10 +431,12 @@ pub fn huge(dir: &str, ops_path: &str, impl_path: &str) -> Vec<String> {
         violations.push(format!("history 0 (seed 0) step {}: after the huge history: {}", lines.len(), v));
       }
     }
-    std::fs::write(format!("{}/huge_v3.cfb", dir), real.image()).unwrap();
+    std::fs::write(format!("{}/huge_v{}.cfb", dir, if v4 { 4 } else { 3 }), real.image()).unwrap();
     std::fs::write(ops_path, ops_out).unwrap();
     std::fs::write(impl_path, impl_out).unwrap();
     println!("STAT huge_bytes {}", real.image().len());
+    // the logical content (walk with metadata, every stream's bytes): must not depend on the format version
+    println!("STAT dump_hash {}", fnv(real.dump().as_bytes()) % 1_000_000_007);
     violations
 }
 
